@@ -683,7 +683,7 @@ def _diff(a, b):
 class RunsStream(Stream):
     name = "runs"
     rule = ("generated projects (REUSE.toml hierarchies with all three precedences, hierarchies of closest tables supplying one half each, .reuse/dep5, plain, a root directory itself named "
-            "`subprojects`, a Git repository; headers in several comment styles incl. stacked terminators such as `MIT */-->`, "
+            "`subprojects`, a Git repository, a Git repository with one to three submodules (a `.git` file or an own repository + .gitmodules; top level and nested; with files lacking information, an own LICENSES/ and REUSE.toml) run without and with --include-submodules; headers in several comment styles incl. stacked terminators such as `MIT */-->`, "
             ".license sidecars of binaries, unparseable expressions, LICENSES/ with unused / deprecated / extension-less / bad "
             "entries, a top-level subprojects/x/): `lint --json`, `spdx`, `spdx --add-license-concluded` are run (a) serially, (b) with "
             "the real pool and with pools of 1, 3, 16 workers whose results come back in shuffled order, (c) with os.walk / glob "
@@ -692,10 +692,10 @@ class RunsStream(Stream):
             "spelt relatively, absolutely, with a trailing slash, as ./x/../x and via sub/..; outputs are normalised (lists "
             "sorted, namespace uuid / timestamp / tool version dropped, printed paths mapped to the file they denote) and "
             "all runs of one tree must coincide; non-trivial = distinct trees with >= 5 files and a non-compliant verdict")
-    KINDS = ["toml", "toml-partial", "dep5", "subprojects-root", "plain", "git"]
+    KINDS = ["toml", "toml-partial", "dep5", "subprojects-root", "plain", "git", "git-submodule"]
 
     def cases(self, tier, rng):
-        n = 30 if tier == "thorough" else 6
+        n = 35 if tier == "thorough" else 7
         for i in range(n):
             yield {"seed": rng.randrange(1 << 30), "kind": self.KINDS[i % len(self.KINDS)],
                    "seeds": HASHSEEDS_THOROUGH if tier == "thorough" else HASHSEEDS_QUICK}
@@ -711,12 +711,28 @@ class RunsStream(Stream):
             cli.write_tree(root, files)
             other = os.path.join(base, "elsewhere")
             os.makedirs(other)
-            if case["kind"] == "git":
+            submodules = R.gen_submodules(case["seed"]) if case["kind"] == "git-submodule" else []
+            if case["kind"] in ("git", "git-submodule"):
                 with open(os.path.join(root, ".gitignore"), "w") as fp:
                     fp.write("*.ign\n")
                 cli.write_tree(root, {"src/junk.ign": "ignored\n"})
                 _git(["init", "-q"], root)
                 _git(["add", "-A"], root)
+            if submodules:
+                # as harness/props/c03.py does: a directory with a `.git` file (or an own repository) + an entry in .gitmodules
+                with open(os.path.join(root, ".gitmodules"), "w") as fp:
+                    for place, how, sfiles in submodules:
+                        fp.write('[submodule "%s"]\n\tpath = %s\n\turl = https://example.com/%s.git\n' % (place, place, place.replace("/", "-")))
+                for place, how, sfiles in submodules:
+                    sroot = os.path.join(root, place)
+                    os.makedirs(sroot, exist_ok=True)
+                    cli.write_tree(sroot, sfiles)
+                    if how == "nested-repo":
+                        _git(["init", "-q"], sroot)
+                    else:
+                        with open(os.path.join(sroot, ".git"), "w") as fp:
+                            fp.write("gitdir: %s\n" % os.path.relpath(os.path.join(root, ".git", "modules", place), sroot))
+                _git(["add", ".gitmodules"], root)
             os.makedirs(os.path.join(root, "src"), exist_ok=True)
             rr = os.path.realpath(root)
             logging.disable(logging.CRITICAL)
@@ -754,10 +770,39 @@ class RunsStream(Stream):
                          ("cwd=parent --root ./<name>/../<name>", parent, "./%s/../%s" % (name, name)),
                          ("cwd=elsewhere --root <abs>", other, root), ("cwd=elsewhere --root <abs>/", other, root + "/"),
                          ("cwd=elsewhere --root ../outer/<name>", other, "../outer/" + name)]
-                if case["kind"] == "git":
+                if case["kind"] in ("git", "git-submodule"):
                     confs.append(("cwd=sub (git finds the root)", sub, None))
                 for label, cwd, ra in confs:
                     check(label, R.run_three(cwd, ra, serial), cwd)
+                if submodules:
+                    # the same working directories and spellings once more with the submodules included: the reference is the run
+                    # from the root with the same option
+                    incl = serial + ["--include-submodules"]
+                    base_incl = R.norm_all(R.run_three(root, None, incl), root, rr)
+                    deep = os.path.join(root, os.path.dirname(submodules[0][0]) or "docs")
+                    os.makedirs(deep, exist_ok=True)
+                    for label, cwd, ra in confs + [("cwd=the submodule's parent directory (git finds the root)", deep, None),
+                                                   ("cwd=the submodule's parent directory --root <abs>", deep, root)]:
+                        nconf += 1
+                        got = R.norm_all(R.run_three(cwd, ra, incl), cwd, rr)
+                        if got != base_incl:
+                            diffs.append([label + " --include-submodules", _diff(base_incl, got)])
+                    for label, cwd, ra in [("cwd=the submodule's parent directory (git finds the root)", deep, None),
+                                           ("cwd=the submodule's parent directory --root <abs>", deep, root)]:
+                        check(label, R.run_three(cwd, ra, serial), cwd)
+                    with patched_pool(3, case["seed"]):
+                        nconf += 1
+                        got = R.norm_all(R.run_three(sub, "..", ["--include-submodules"]), sub, rr)
+                        if got != base_incl:
+                            diffs.append(["pool:3-workers-shuffled cwd=sub --root .. --include-submodules", _diff(base_incl, got)])
+
+                    def below(out):
+                        fs = [f["path"] for f in out["lint"].get("files", [])] if isinstance(out["lint"], dict) else []
+                        return sorted(f for f in fs if any(f == pl or f.startswith(pl + "/") for pl, _, _ in submodules))
+
+                    truth = sorted(pl + "/" + f for pl, _, sf in submodules for f in sf
+                                   if not f.startswith("LICENSES/") and not f.endswith("REUSE.toml"))
+                    sub_truth = {"excluded": below(base_out), "included": below(base_incl), "expected": truth}
                 for hs, p in children:
                     out = p.communicate()[0]
                     try:
@@ -776,7 +821,7 @@ class RunsStream(Stream):
                 logging.disable(logging.NOTSET)
         files_n = len(base_out["lint"].get("files", [])) if isinstance(base_out["lint"], dict) else -1
         return json.dumps({"configs": nconf, "files": files_n, "compliant": base_out["lint"].get("summary", {}).get("compliant"),
-                           "tracebacks": base_out["tracebacks"], "diffs": diffs})
+                           "tracebacks": base_out["tracebacks"], "diffs": diffs, **({"submodules": sub_truth} if submodules else {})})
 
     def oracle(self, case, impl_out):
         if impl_out.startswith("EXC"):
@@ -784,6 +829,14 @@ class RunsStream(Stream):
         r = json.loads(impl_out)
         if r["tracebacks"]:
             return "runs-traceback: " + "; ".join(r["tracebacks"])[:300]
+        sm = r.get("submodules")
+        if sm is not None:
+            # generator ground truth: the files of a submodule are counted exactly when --include-submodules is given
+            if sm["excluded"]:
+                return "submodule-files-counted: without --include-submodules the run from the root lists %s" % sm["excluded"][:4]
+            if sm["included"] != sm["expected"]:
+                return "submodule-files-missing: with --include-submodules the run from the root lists %s, the submodules hold %s" % (
+                    sm["included"][:6], sm["expected"][:6])
         if r["diffs"]:
             kinds = sorted({d[0].split("=")[0].split(":")[0].split(" ")[0] for d in r["diffs"]})
             return "result-differs(%s): %d of %d configurations differ from the serial run in the root; %s" % (
